@@ -47,6 +47,22 @@ impl Ctx {
         rx.recv()
     }
 
+    pub fn hold_io(&self, held: bool) {
+        self.world.hold_io(held);
+    }
+
+    pub fn wait_blocked(&self, actor: usize) {
+        self.world.wait_actor_blocked(actor);
+    }
+
+    pub fn wait_io_quiet(&self) {
+        self.world.wait_io_quiet();
+    }
+
+    pub fn force_push(&self, label: &str) -> bool {
+        self.world.force_push(label)
+    }
+
     pub fn log<S: Into<String>>(&self, s: S) {
         self.world.log(s.into());
     }
